@@ -2,6 +2,7 @@ package rpc
 
 import (
 	"fmt"
+	"os"
 	"math/rand"
 	"sort"
 	"strconv"
@@ -69,16 +70,23 @@ type Gen struct {
 }
 
 // NewGen builds a fresh harness chain (small-magnitude genesis, standard contract menu).
-func NewGen(seed int64, tid string, tbl *prog.Table) *Gen {
+func NewGen(seed int64, tid string, tbl *prog.Table) *Gen { return NewGenMaxGas(seed, tid, tbl, false) }
+
+// NewGenMaxGas: unlimited=true switches the block gas limit off (chains with a big block).
+func NewGenMaxGas(seed int64, tid string, tbl *prog.Table, unlimited bool) *Gen {
 	r := rand.New(rand.NewSource(seed))
 	maxGas := int64(-1)
-	if r.Intn(5) < 2 {
+	if r.Intn(5) < 2 && !unlimited {
 		maxGas = int64(150000 + r.Intn(5)*50000)
 	}
 	// universe, genesis accounts and contract menu are those of the EthTx family (kept in one place: drivers.NewEthWorld)
 	w, _ := drivers.NewEthWorld(tbl, r, tid, func(o *chain.Opts) {
 		o.MaxGas = maxGas
 		o.MinGasPrice = "0"
+		if unlimited {
+			// a chain with a big block must execute its txs: keep the EVM switched on whatever the shared dice said
+			o.EvmDisableCall, o.EvmDisableCreate = false, false
+		}
 	})
 	return &Gen{W: w, Rec: NewRec(w.C), R: r}
 }
@@ -275,6 +283,11 @@ func (g *Gen) BigBlock(n int) (*RecBlock, []GenTx, bool) {
 		aims = append(aims, t.Aim)
 	}
 	rb, ok := g.Rec.Deliver(raw, aims)
+	if ok && os.Getenv("VH_RPC_DEBUG") != "" {
+		for i, t := range txs {
+			fmt.Fprintln(os.Stderr, "big", i, t.Aim, t.From, rb.Res.TxResults[i].Code, rb.Res.TxResults[i].Log)
+		}
+	}
 	return rb, txs, ok
 }
 
